@@ -35,16 +35,17 @@ CHECKS = {
           "variational compression can stall (see known_findings.json).",
           "Lean 4 proof under kernel contracts + contract checks on recorded kernel calls", "§6 C04, §10.2"),
  "C05": P("Lean: kept-count logic of CompressConfig (threshold/fixed/both, left/right bond index), prefix property of the threshold rule, at least one state kept, kept+discarded=total, "
-          "Frobenius identity for U D V^H (single-cut error = discarded weight, norm never grows). Exact replay of compute_m_trunc on dyadic spectra. Dense-SVD oracle for limits, norm, "
+          "Frobenius identity for U D V^H (single-cut error = discarded weight, norm never grows); nested orthogonal projections: the squared error of a whole sweep is EXACTLY the sum of "
+          "the locally discarded weights (Props/C05Nested), checked as an equality on real compress sweeps. Exact replay of compute_m_trunc on dyadic spectra. Dense-SVD oracle for limits, norm, "
           "root-sum-square upper bound and Eckart-Young lower bound on chains and trees.",
-          LEAN_TB + "Multi-bond error bounds are measured, not proved (partial).",
+          LEAN_TB + "That the locally discarded weights are bounded by the ORIGINAL state's at the same bond (interlacing) and the Eckart-Young lower bound are measured, not proved (partial).",
           "Lean 4 proof of the count logic and single-cut identity + exact replay", "§6 C05, §10.2"),
- "C06": P("Lean: block-sparsity invariant => zero amplitude outside the sector (any label group, any length); preserved by add / scale / conj / apply (sector shifted by the operator's "
+ "C06": P("Lean: block-sparsity invariant => zero amplitude outside the sector (any label group, any length; for trees: every rooted tree, Props/C06Tree); preserved by add / scale / conj / apply (sector shifted by the operator's "
           "charge) / label-respecting re-factorisation / masking; soundness of the executable checker checkInv. The checker is run on the support pattern and stored labels of the REAL tensors "
           "after every operation; move_qnidx replayed exactly. Dense sector-projection oracle over all constructors, DMRG, all evolution schemes, chains and trees.",
           LEAN_TB + "support = |x| > 1e-10 max|A|. Open findings: Mps.random / TTNS.random dead-end blocks.",
           "Lean 4 proof of the sector theorem and its preservation + certificate validation on real tensors", "§6 C06, §10.2"),
- "C07": P("Lean: the cached-environment fast path: the cache is prefix closed in construction order for EVERY operator list (no KeyError), every cached environment is the plain contraction of "
+ "C07": P("Lean: one-site reduced density matrix through environments = Tr(G_L M_s G_R M_s'^H) for any gauge, length and dimensions (Props/C07Rdm); the cached-environment fast path: the cache is prefix closed in construction order for EVERY operator list (no KeyError), every cached environment is the plain contraction of "
           "its key, the handed-out prefix never overlaps the other side. Every cache decision of the real expectations() is replayed exactly. Dense oracle for all observables, RDMs, entropies.",
           LEAN_TB + "Matrix.__hash__ assumed injective on the inputs. Entropies are float formulas (partial). Contraction = dense value is c03_dot.",
           "Lean 4 proof of the cache logic for all operator lists + exact replay of cache decisions", "§6 C07, §10.2"),
@@ -65,7 +66,8 @@ CHECKS = {
           "Lean 4 partial proof (propagator structure, bookkeeping) + correspondence + dense-oracle search", "§6 C10, §10.2", "other"),
  "C11": P("Partial: state-sum model of a tensor network on any graph (scale, linearity in a node, node relabelling = child-order independence, bond permutation gauge, general bond gauge "
           "G / G^-1 = every QR / lossless SVD push of the tree code) proved in Lean; hypotheses checked on every real push_cano move, model replayed on "
-          "real TTNS objects; tree sector theorem (Props/C06Tree); add/apply/canonicalise/compress/expectation/RDM/entropies/from_mps: dense oracle.",
+          "real TTNS objects; recursive contraction model with TTNS.add = sum of the dense vectors and TTNO.apply = two-layer contraction for EVERY tree by mutual structural induction "
+          "(Props/C11Tree, C11Apply), node tensors of the real add / apply replayed entry by entry; tree sector theorem (Props/C06Tree); add/apply/canonicalise/compress/expectation/RDM/entropies/from_mps: dense oracle.",
           LEAN_TB + "tn imports only with the print_tree shim.",
           "Lean 4 partial proof (state-sum model) + correspondence + dense-oracle search", "§6 C11, §10.2", "other"),
  "C12": P("Partial: Lean traversal models of the one- and two-site projector-splitting sweeps for every rooted tree (one local step per node/edge; backward half sweep = mirror image of the forward one; "
@@ -91,7 +93,8 @@ CHECKS = {
           "simplify_op and table_row_swapped_jw replayed. qc_model vs independent fermionic matrix, hermiticity, number conservation, OFS swap sequences: dense oracle.",
           LEAN_TB + "jw_equals_fock for all orbital counts is not proved (oracle for 1-4 spatial orbitals).",
           "Lean 4 proof (word normal form, exhaustive swap table) + exact replay", "§6 C17, §10.2"),
- "C18": P("Lean: assembly of the symmetry-blocked factorisation for every label pattern (reconstruction of the allowed part, cross-sector orthogonality, labels, sort permutation, invalid-qn iff no "
+ "C18": P("Lean: exactness of the Krylov approximation on an invariant Krylov space for every polynomial (Props/C18Krylov, checked on the real routine with start vectors in small invariant "
+          "subspaces); assembly of the symmetry-blocked factorisation for every label pattern (reconstruction of the allowed part, cross-sector orthogonality, labels, sort permutation, invalid-qn iff no "
           "sector pairs), kernels as parameters; hypotheses and conclusion checked on real svd_qn output. Krylov exponential vs scipy expm: numerical contract (partial).",
           LEAN_TB + "LAPACK kernels and Lanczos are not modelled.",
           "Lean 4 proof of the blocked assembly under kernel contracts + contract checks", "§6 C18, §10.2"),
